@@ -124,6 +124,9 @@ MUTANTS = [
     ("projection_position_index", "bempp_cl/api/assembly/grid_function.py", "* function_data[:, index * npoints : (1 + index) * npoints]", "* function_data[:, element * npoints : (1 + element) * npoints]", 0, ["C13"]),
     ("map_to_full_grid_rows", "bempp_cl/api/space/space.py", "nshape_fun * _np.repeat(self._support_elements, nshape_fun)\n                    + _np.tile(_np.arange(nshape_fun), self._number_of_support_elements),", "nshape_fun * _np.repeat(_np.arange(self._number_of_support_elements), nshape_fun)\n                    + _np.tile(_np.arange(nshape_fun), self._number_of_support_elements),", 0, ["C02", "C04", "C09"]),
     ("rwg_sign_rule", "bempp_cl/api/space/maxwell_spaces.py", "1 if element_index == min(supported_neighbors) else -1", "1 if element_index == min(supported_neighbors) else 1", 0, ["C03", "C09"]),
+    ("p1_neighbour_vertex_position", "bempp_cl/api/space/scalar_spaces.py", "other_local_index = find_index(grid_data.elements[:, en], vertex)", "other_local_index = find_index(grid_data.elements[:, element_index], vertex)", 0, ["C09"]),
+    ("rwg_boundary_dof_counter_shared", "bempp_cl/api/space/maxwell_spaces.py", "                        edge_dofs[edge_index] = dof_count\n                        dof_count += 1\n                    has_dof = True\n                    if not truncate_at_segment_edge:", "                        edge_dofs[edge_index] = dof_count\n                    has_dof = True\n                    if not truncate_at_segment_edge:", 0, ["C09"]),
+    ("rwg_map_wrong_edge", "bempp_cl/api/space/maxwell_spaces.py", "            edge_index = element_edges[local_index, element_index]\n            if edge_dofs[edge_index] != -1:\n                dofmap[local_index] = edge_dofs[edge_index]", "            edge_index = element_edges[local_index, element_index]\n            if edge_dofs[edge_index] != -1:\n                dofmap[local_index] = edge_dofs[element_edges[(local_index + 1) % 3, element_index]]", 0, ["C09"]),
     ("dispatch_wrong_constructor", "bempp_cl/api/space/space.py", "            space_f = scalar_dual_spaces.dual1_function_space", "            space_f = scalar_dual_spaces.dual0_function_space", 0, ["C09"]),
     ("dispatch_unknown_not_rejected", "bempp_cl/api/space/space.py", "    if space_f is None:\n        raise ValueError(\"Requested space not implemented.\")", "    if space_f is None:\n        space_f = scalar_spaces.p0_discontinuous_function_space", 0, ["C09"]),
     ("normal_mult_both_plus", "bempp_cl/api/space/space.py", "            normal_multipliers[element_index] = -1\n", "            normal_multipliers[element_index] = 1\n", 0, ["C03", "C09"]),
